@@ -47,6 +47,7 @@ type verifC18Peer struct {
 	once     sync.Once
 	active   int32
 	lastBody atomic.Value // *verifC18Body
+	isLocal  bool         // the local Rails API: the delegate itself waits for this answer
 }
 
 func verifC18NewPeer() *verifC18Peer {
@@ -71,6 +72,10 @@ func (t *verifC18Transport) RoundTrip(req *http.Request) (*http.Response, error)
 	cancelled := func() (*http.Response, error) {
 		// answer the cancellation only after the delegate has returned, so that what it
 		// collected does not depend on a race between this goroutine and its drain loop
+		// (not for the local peer: the delegate is waiting for that very answer)
+		if p.isLocal {
+			return nil, req.Context().Err()
+		}
 		select {
 		case <-t.finished:
 		case <-time.After(20 * time.Second):
@@ -167,6 +172,7 @@ func verifC18Fetch(f []string) string {
 	if err != nil {
 		return "bad-op"
 	}
+	local.isLocal = true
 	tr := &verifC18Transport{peers: map[string]*verifC18Peer{"rails.example": local}, finished: make(chan struct{})}
 	cluster := &arvados.Cluster{ClusterID: "zhome", RemoteClusters: map[string]arvados.RemoteCluster{
 		// neither of these two may be queried by the fan-out
